@@ -16,11 +16,10 @@ Fixpoint pdist_sq (x y : point) : Z :=
   | a :: x', b :: y' => (a - b) * (a - b) + pdist_sq x' y'
   | _, _ => 0
   end.
-Fixpoint pdist_abs (x y : point) : Z :=
-  match x, y with
-  | a :: x', b :: y' => Z.abs (a - b) + pdist_abs x' y'
-  | _, _ => 0
-  end.
+(* inner_dist = 'euclidean': the Euclidean norm of the difference vector.  Over Z this is the integer square root
+   of the squared norm -- exact whenever that is a perfect square (always for d = 1, where it is |a - b|); the
+   correspondence streams for d > 1 only use such points. *)
+Definition pdist_abs (x y : point) : Z := Z.sqrt (pdist_sq x y).
 Definition pdist (k : inner) (x y : point) : Z :=
   match k with SqEuclid => pdist_sq x y | AbsDiff => pdist_abs x y end.
 (* innerdistance.*.inner_val : transformation applied to thresholds/penalty *)
@@ -30,17 +29,19 @@ Definition inner_val (k : inner) (x : Z) : Z :=
 Lemma pdist_sq_nonneg x y : 0 <= pdist_sq x y.
 Proof. revert y; induction x as [|a x IH]; destruct y as [|b y]; cbn [pdist_sq]; try lia. specialize (IH y). pose proof (Z.square_nonneg (a - b)). lia. Qed.
 Lemma pdist_abs_nonneg x y : 0 <= pdist_abs x y.
-Proof. revert y; induction x as [|a x IH]; destruct y as [|b y]; cbn [pdist_abs]; try lia. specialize (IH y). lia. Qed.
+Proof. unfold pdist_abs. apply Z.sqrt_nonneg. Qed.
 Lemma pdist_nonneg k x y : 0 <= pdist k x y.
 Proof. destruct k; [apply pdist_sq_nonneg|apply pdist_abs_nonneg]. Qed.
 Lemma pdist_sq_sym x y : pdist_sq x y = pdist_sq y x.
 Proof. revert y; induction x as [|a x IH]; destruct y as [|b y]; cbn [pdist_sq]; auto. rewrite IH. replace (b - a) with (- (a - b)) by lia. rewrite Z.mul_opp_opp. reflexivity. Qed.
 Lemma pdist_abs_sym x y : pdist_abs x y = pdist_abs y x.
-Proof. revert y; induction x as [|a x IH]; destruct y as [|b y]; cbn [pdist_abs]; auto. rewrite IH. lia. Qed.
+Proof. unfold pdist_abs. rewrite pdist_sq_sym. reflexivity. Qed.
 Lemma pdist_sym k x y : pdist k x y = pdist k y x.
 Proof. destruct k; [apply pdist_sq_sym|apply pdist_abs_sym]. Qed.
+Lemma pdist_sq_refl x : pdist_sq x x = 0.
+Proof. induction x as [|a x IHx]; cbn [pdist_sq]; auto. rewrite IHx, Z.sub_diag. reflexivity. Qed.
 Lemma pdist_refl k x : pdist k x x = 0.
-Proof. destruct k; induction x as [|a x IHx]; cbn [pdist pdist_sq pdist_abs] in *; auto; rewrite IHx; rewrite Z.sub_diag; reflexivity. Qed.
+Proof. destruct k; cbn [pdist]; [apply pdist_sq_refl|unfold pdist_abs; rewrite pdist_sq_refl; reflexivity]. Qed.
 
 (* ---------------------------------------------------------------- settings *)
 (* User-level settings as the API takes them (None/0 = option off). *)
